@@ -77,22 +77,24 @@ SYMBOLS = ["Unset", "Root", "NotEmpty"]
 # theorem names (lean/Proofs/ClassTable.lean, namespace Flatland.ClassTable) per property id
 _P = "Flatland.ClassTable."
 OBLIGATIONS = {
-    "C01": ["flat_flags_agree", "flat_kinds_cover", "list_ceiling_default", "sequence_prune_default", "optional_default"],
-    "C02": ["flat_flags_agree", "flat_kinds_cover", "list_ceiling_default", "sequence_prune_default", "optional_default"],
-    "C07": ["flat_flags_agree", "flat_kinds_cover", "flags_closed_under_mro"],
-    "C03": ["flat_flags_agree", "dict_policy_default", "sparse_minimum_default", "optional_default",
-            "tree_is_empty_definers"],
+    "C01": ["flat_flags_agree", "flat_flags_table", "flat_kinds_cover", "list_ceiling_default",
+            "sequence_prune_default", "optional_default"],
+    "C02": ["flat_flags_agree", "flat_flags_table", "flat_kinds_cover", "list_ceiling_default",
+            "sequence_prune_default", "optional_default"],
+    "C07": ["flat_flags_agree", "flat_flags_table", "flat_kinds_cover", "flags_closed_under_mro"],
+    "C03": ["dict_policy_default", "sparse_minimum_default", "optional_default"],
     "C04": ["boolean_default_agrees", "scalar_strip_defaults", "number_defaults", "temporal_triples_agree",
-            "joined_defaults", "dict_policy_default"],
-    "C05": ["validates_agree", "validates_model_reading", "validate_definers", "sentinel_truthiness",
-            "sentinels_distinct"],
-    "C06": ["c06_builtin_defaults", "dict_policy_default", "optional_default"],
+            "joined_defaults"],
+    "C05": ["validates_agree", "validateUp_reads", "validateDown_reads", "validate_definers", "c05_kinds_agree",
+            "sentinel_truthiness", "sentinels_distinct"],
+    "C06": ["c06_kind_has_agrees", "c06_builtin_defaults"],
     "C08": ["tree_kinds_agree", "tree_defaults_agree", "tree_is_empty_definers", "list_slot_type"],
     "C09": ["tree_kinds_agree", "tree_defaults_agree", "list_slot_type"],
-    "C10": ["tree_kinds_agree", "tree_defaults_agree", "sparse_minimum_default", "dict_policy_default"],
-    "C12": ["flat_flags_agree", "boolean_default_agrees"],
+    "C10": ["tree_kinds_agree", "tree_defaults_agree", "tree_is_empty_definers", "sparse_minimum_default",
+            "dict_policy_default"],
+    "C12": ["flat_flags_table", "flat_kinds_cover", "boolean_default_agrees"],
     "C13": ["tree_kinds_agree"],
-    "C18": ["joined_defaults", "ref_defaults", "temporal_triples_agree", "number_defaults"],
+    "C18": ["joined_defaults", "ref_defaults", "temporal_triples_agree", "number_defaults", "scalar_strip_defaults"],
     "C20": ["dict_policy_default", "scalar_strip_defaults", "optional_default"],
 }
 OBLIGATIONS = {p: [_P + t for t in ts] for p, ts in OBLIGATIONS.items()}
@@ -350,7 +352,7 @@ def _extract():
                 definers.append((m, d.__name__))
         rows.append({"name": name, "mro": mro, "attrs": attrs, "definers": definers,
                      "public": name in PUBLIC,
-                     "flat": [], "tree": [], "c05": []})
+                     "flat": [], "tree": [], "c05": [], "c06": []})
     byname = {r["name"]: r for r in rows}
     bycls = {c: n for n, c in classes}
 
@@ -372,6 +374,19 @@ def _extract():
     for kind, cn in C05_KINDS.items():
         if cn in byname:
             byname[cn]["c05"].append(kind)
+
+    # harness/props/c06.py BASES: class name -> model kind (read from its source text, not imported)
+    try:
+        c06src = ast.parse(open(os.path.join(core.VERIF, "harness", "props", "c06.py"), encoding="utf-8").read())
+        bases = next(ast.literal_eval(n.value) for n in c06src.body if isinstance(n, ast.Assign)
+                     and len(n.targets) == 1 and isinstance(n.targets[0], ast.Name) and n.targets[0].id == "BASES")
+        for cn, d in bases.items():
+            if cn in byname:
+                byname[cn]["c06"].append(d["kind"])
+            else:
+                problems.append("class table: harness/props/c06.py BASES names %s, which has no row" % cn)
+    except Exception as e:
+        problems.append("class table: reading BASES of harness/props/c06.py failed: %s: %s" % (type(e).__name__, e))
 
     # sentinels
     ints, syms = _module_sentinels(srcdir)
@@ -406,11 +421,11 @@ def _extract():
         attrs = lean_list("(%s, %s, %s)" % (lean_str(a), lean_str(d), v.lean()) for a, d, v in r["attrs"])
         defs = lean_list("(%s, %s)" % (lean_str(m), lean_str(d)) for m, d in r["definers"])
         return ("def row%s : Row :=\n  { name := %s,\n    pub := %s,\n    mro := %s,\n    attrs := %s,\n    definers := %s,\n"
-                "    flatKinds := %s,\n    treeKinds := %s,\n    c05Kinds := %s }\n") % (
+                "    flatKinds := %s,\n    treeKinds := %s,\n    c05Kinds := %s,\n    c06Kinds := %s }\n") % (
             r["name"], lean_str(r["name"]), "true" if r["public"] else "false",
             lean_list(lean_str(m) for m in r["mro"]), attrs, defs,
             lean_list(lean_str(k) for k in r["flat"]), lean_list(lean_str(k) for k in r["tree"]),
-            lean_list(lean_str(k) for k in r["c05"]))
+            lean_list(lean_str(k) for k in r["c05"]), lean_list(lean_str(k) for k in r["c06"]))
 
     text = """/- GENERATED by harness/extractors/classtable.py from the current /repo source on every run — do not edit.
    One row per element class: the MRO, every class-level data attribute a class body of the MRO assigns (resolved
@@ -443,6 +458,8 @@ structure Row where
   treeKinds : List Str
   /-- node kinds of harness/props/c05.py -/
   c05Kinds : List Str
+  /-- `Flatland.C06.Kind`s harness/props/c06.py (`BASES`) runs this class as -/
+  c06Kinds : List Str
   deriving Repr, Inhabited
 
 def Row.get (r : Row) (a : Str) : Option Val :=
